@@ -4,6 +4,8 @@ import Spine.LocalTreeThm
 import Spine.LocalTreeMore
 import Spine.LocalTreeSpec
 import Spine.LocalTreeNote
+import Spine.LocalTreeRead
+import Spine.LocalTreeReadThm
 /-!
 # C07 — the local device tree is announced faithfully and addressed uniquely
 
@@ -49,7 +51,8 @@ The announced CONTENTS are modelled as well: device description and destination 
 `c07_destination_list_function_announced`), supported functions with read / write / partial flags as
 `Operations.Information` derives them (`c07_supported_functions`; the partial-write capability of a function on a
 feature type comes from the regenerated factory table `Spine.Generated.Functions`, supplied by the driver).
-Not modelled: reads overlapping feature or function additions (C17's subject).
+Reads overlapping feature / function / description additions: modelled as events (second wave, section "Clause 1 for a
+read that overlaps additions" below; `Spine/LocalTreeRead.lean`).
 Deepening round (audit table: `design/audit-C07.md`): "never reused" is now a theorem over histories of the tree model
 incl. entities removed from the device and added again (`c07_numbers_never_reused_history`) and over every schedule of
 the event model incl. numbers burnt by NextFeatureId (`c07_numbers_never_reused`); "one and the same feature" is stated
@@ -95,6 +98,100 @@ example : validFrom (init {}) exOps ∧ replyEnts (run {} exOps) = [(0, 0), (2, 
 
 example : (heldRead (run {} exOps) 1 (.detach 2)).2 =
     [.reply 1 {} [(0, 0), (2, 2), (1, 1)] (replyFeats (run {} exOps)), .notify 0 false 2 2 []] := by decide
+
+/-! ## Clause 1 for a read that overlaps additions: the read as events (second deepening wave)
+
+`processReadDetailedDiscoveryData` is not one critical section: it takes the entity list, then per entity the feature
+list, then per feature the operations map and the description, each under its own lock (`Spine/LocalTreeRead.lean`:
+events `ent`, `ops`, `descr` performed by `tick` in the fixed order of the walk; `Ev.app o` is an application call that
+happens in between). -/
+
+/-- A read that nothing overlaps — the events of the walk, all on one state — IS the atomic read of the tree model:
+    it ends (after at most `measure` events) and sends exactly the reply of `step s (.read p)`, i.e. the reply
+    `c07_reply_faithful` / `c07_refines` talk about. -/
+theorem c07_read_events_refine_atomic_read (s : St) (h : Inv s) (p : Nat) :
+    (tickN s (LTree.measure s (rbegin s p)) (rbegin s p)).done = true ∧
+    ∀ n, (tickN s n (rbegin s p)).done = true → [(tickN s n (rbegin s p)).reply s] = (step s (.read p)).2 :=
+  ⟨done_after_measure s _ _ (Nat.le_refl _), fun n hd => read_alone s h p n hd⟩
+
+/-- a tree with two entities and a feature each, used below -/
+def exTwo : St := run {} [.renew 1 1, .feat 1 0 1, .addFn 1 1 0 true true true, .renew 2 2, .feat 2 1 1, .attach 1, .attach 2]
+
+example : Inv exTwo ∧ LTree.measure exTwo (rbegin exTwo 1) = 11 ∧
+    (tickN exTwo 11 (rbegin exTwo 1)).reply exTwo = .reply 1 {} (replyEnts exTwo) (replyFeats exTwo) ∧
+    (tickN exTwo 10 (rbegin exTwo 1)).done = false := ⟨inv_run {} _, by decide, by decide, by decide⟩
+
+/-- "At every moment", for a read that ONE application call overlaps (GetOrAddFeature, NextFeatureId, AddFunctionType,
+    SetDescriptionString, AddEntity, RemoveEntity, a subscription …; any call but a fresh object for a slot), wherever
+    in the walk the call falls (a events of the read before it, b after it, for all a and b): the reply is a linearisable
+    snapshot — exactly the atomic reply of the tree BEFORE the call or exactly that of the tree AFTER it, never a
+    mixture; the call's own observations (returned number, notifications) are those of `step`. Domain: distinct entity
+    addresses in the device. -/
+theorem c07_overlapped_read_one_call (s : St) (h : Inv s) (hn : s.attached.Nodup) (o : Op) (hr : ∀ k et, o ≠ .renew k et)
+    (p a b : Nat) :
+    let x := runRead s p (List.replicate a .tick ++ [.app o] ++ List.replicate b .tick)
+    x.1 = (step s o).1 ∧ x.2.2 = (step s o).2 ∧
+    (x.2.1.done = true →
+      x.2.1.reply x.1 = .reply p s.dev (replyEnts s) (replyFeats s) ∨
+      x.2.1.reply x.1 = .reply p s.dev (replyEnts (step s o).1) (replyFeats (step s o).1)) := by
+  simp only [runRead_one]
+  refine ⟨trivial, trivial, ?_⟩
+  intro hd
+  have hp : (tickN (step s o).1 b (tickN s a (rbegin s p))).peer = p := by rw [peer_tickN, peer_tickN]; rfl
+  rcases one_overlap s h hn o hr p a b hd with e | e
+  · left
+    simp only [Rd.reply, hp, dev_step, Obs.reply.injEq, true_and]
+    exact ⟨congrArg Prod.fst e, congrArg Prod.snd e⟩
+  · right
+    simp only [Rd.reply, hp, dev_step, Obs.reply.injEq, true_and]
+    exact ⟨congrArg Prod.fst e, congrArg Prod.snd e⟩
+
+/-- non-vacuity: the read of `exTwo` has rendered entity [0] and entity 1 (a = 6 events) when feature (2, 3) is added
+    to entity 2 — the reply shows it (the tree after); added to entity 1 instead, the reply does not (the tree before) -/
+example : exTwo.attached.Nodup ∧
+    (let x := runRead exTwo 1 (List.replicate 6 .tick ++ [.app (.feat 2 3 1)] ++ List.replicate 7 .tick)
+     x.2.1.done = true ∧ x.2.1.outF = replyFeats (step exTwo (.feat 2 3 1)).1 ∧ x.2.1.outF ≠ replyFeats exTwo) ∧
+    (let x := runRead exTwo 1 (List.replicate 6 .tick ++ [.app (.feat 1 2 1)] ++ List.replicate 5 .tick)
+     x.2.1.done = true ∧ x.2.1.outF = replyFeats exTwo ∧ x.2.1.outF ≠ replyFeats (step exTwo (.feat 1 2 1)).1) := by
+  decide
+
+/-- With TWO overlapping calls the clause fails for the code as it is, and this is NOT repaired (observation, not a
+    finding: the read is not one critical section by design, features are meant to be added before AddEntity): the
+    read has rendered entity 1, then entity 1 gets feature 2 and after that entity 2 gets feature 2; the reply lists
+    the later addition and not the earlier one — the tree of no moment of this history. The harness reproduces this
+    schedule on the real code (gate in the entity's `Information()`) and finds the same reply. -/
+theorem c07_overlapped_read_not_atomic_refuted :
+    let evs := List.replicate 6 Ev.tick ++ [.app (.feat 1 2 1), .app (.feat 2 3 1)] ++ List.replicate 7 .tick
+    let x := runRead exTwo 1 evs
+    let s1 := (step exTwo (.feat 1 2 1)).1
+    x.2.1.done = true ∧ replyFeats x.1 = replyFeats (step s1 (.feat 2 3 1)).1 ∧
+    x.2.1.outF ≠ replyFeats exTwo ∧ x.2.1.outF ≠ replyFeats s1 ∧ x.2.1.outF ≠ replyFeats x.1 ∧
+    (2, ⟨2, 3, 1, descrOf 3 1, []⟩) ∈ x.2.1.outF ∧ (1, ⟨2, 2, 1, descrOf 2 1, []⟩) ∉ x.2.1.outF := by
+  decide
+
+/-- What holds for ANY schedule — any number of overlapping calls at any points of the walk (a fresh object for a slot
+    excepted): the entity list of the reply is exactly the entity list, with the entity types, of the moment the read
+    started (AddEntity / RemoveEntity during the read do not show, whatever else happens). The feature part of such a
+    reply is judged by the harness's sandwich monitor only (between the tree at the start and the tree at the end,
+    feature by feature) — not a theorem. -/
+theorem c07_overlapped_read_entities (s : St) (p : Nat) (evs : List Ev) (he : ∀ e ∈ evs, noRenewEv e)
+    (hd : (runRead s p evs).2.1.done = true) :
+    (runRead s p evs).2.1.outE = replyEnts s ∧ (runRead s p evs).2.1.peer = p := by
+  refine ⟨overlapped_entities s p evs he hd, ?_⟩
+  have : ∀ (evs : List Ev) (x : St × Rd × List Obs), (evs.foldl evStep x).2.1.peer = x.2.1.peer := by
+    intro evs
+    induction evs with
+    | nil => intro x; rfl
+    | cons e es ih =>
+      intro x
+      rw [List.foldl_cons, ih]
+      cases e with
+      | tick => exact peer_tick _ _
+      | app o => rfl
+  exact this evs _
+
+example : (let x := runRead exTwo 1 ([.tick, .app (.detach 2), .tick, .app (.attach 4), .app (.feat 1 2 1)] ++ List.replicate 12 .tick)
+    x.2.1.done = true ∧ x.2.1.outE = [(0, 0), (1, 1), (2, 2)] ∧ x.1.attached = [0, 1, 4]) := by decide
 
 /-! ## Clause 1 as one statement over histories: the reply equals the SPEC of the history -/
 
